@@ -53,14 +53,27 @@ func ZZ_C07_sweep() {
 	nv := s.stVersion.spawn(rec, false)
 	s.setVersion(rec, nv)
 	db := &DB{s: s}
-	s.manifestFd = storage.FileDesc{Type: storage.TypeManifest, Num: int64(vpChoose(zzSweepNums))}
-	db.journalFd = storage.FileDesc{Type: storage.TypeJournal, Num: int64(vpChoose(zzSweepNums))}
+	num := func() int64 {
+		n := int64(vpNondetU8())
+		vpAssume(n < zzSweepNums)
+		return n
+	}
+	s.manifestFd = storage.FileDesc{Type: storage.TypeManifest, Num: num()}
+	db.journalFd = storage.FileDesc{Type: storage.TypeJournal, Num: num()}
 	if vpChoose(2) == 1 {
-		db.frozenJournalFd = storage.FileDesc{Type: storage.TypeJournal, Num: int64(vpChoose(zzSweepNums))}
+		db.frozenJournalFd = storage.FileDesc{Type: storage.TypeJournal, Num: num()}
 		vpAssume(db.frozenJournalFd.Num < db.journalFd.Num)
 	}
 	// arbitrary listing (distinct descriptors)
 	types := []storage.FileType{storage.TypeManifest, storage.TypeJournal, storage.TypeTable, storage.TypeTemp}
+	// the live tables are listed, except possibly one (a missing table); the
+	// rest of the listing is arbitrary, in any position relative to them
+	miss := vpChoose(zzSweepLive+1) - 1
+	for i, n := range live {
+		if i != miss {
+			st.list = append(st.list, storage.FileDesc{Type: storage.TypeTable, Num: n})
+		}
+	}
 	nl := vpChoose(zzSweepList + 1)
 	for i := 0; i < nl; i++ {
 		fd := storage.FileDesc{Type: types[vpChoose(len(types))], Num: int64(vpNondetU8())}
@@ -68,7 +81,11 @@ func ZZ_C07_sweep() {
 		for _, o := range st.list {
 			vpAssume(!(o.Type == fd.Type && o.Num == fd.Num))
 		}
-		st.list = append(st.list, fd)
+		if vpChoose(2) == 1 {
+			st.list = append([]storage.FileDesc{fd}, st.list...)
+		} else {
+			st.list = append(st.list, fd)
+		}
 	}
 	needed := func(fd storage.FileDesc) bool {
 		switch fd.Type {
